@@ -2,7 +2,8 @@
 (* Bounded instance for C06 (round trip, normalisation, edits) and C16 (addressing, tile fields). *)
 EXTENDS MapFile, Rand
 CONSTANTS Tier, Seed, NRand
-VARIABLES done
+VARIABLES fam, par
+vars == <<fam, par>>
 TilePool == << <<0,0,0,0>>, <<255,255,255,255>>, <<21,0,0,16>>, <<31,224,255,239>>, <<1,2,3,4>>, <<32,1,0,0>> >>
 Tiles(n, seed) == [i \in 1..n |-> TilePool[((i + seed) % Len(TilePool)) + 1]]
 Clip(seed) == [i \in 1..16 |-> (seed * 17 + i * 3) % 256]
@@ -58,27 +59,43 @@ RMap(r) == LET lg == Below(RS(r), 1, 0, 7)  h == Below(RS(r), 2, 0, 4) IN
    mappings |-> [i \in 1..Below(RS(r), 30, 0, 5) |-> RBytes(r, 31, i * 8, 8)], terrains |-> [i \in 1..Below(RS(r), 32, 0, 3) |-> 40 + i],
    groups |-> [i \in 1..Below(RS(r), 33, 0, 4) |-> LET gw == Below(RS(r), 34, i, 4)  gh == Below(RS(r), 35, i, 4) IN
                 [w |-> gw, h |-> gh, idx |-> [k \in 1..(gw * gh) |-> RBytes(r, 36, i * 64 + k * 4, 4)], name |-> Draw(RS(r), 37 + i, Below(RS(r), 38, i, 7), RNameChars)]]]
-Init == done = FALSE
-Next == /\ ~done /\ done' = TRUE
-        /\ \A lg \in {0, 1, 2, 5} : \A h \in 0..2 : \A ns \in 0..3 : \A nm \in 0..2 : \A nt \in 0..1 : \A ng \in 0..2 :
-             LET seed == lg + 2 * h + 3 * ns + 5 * nm + 7 * nt + 11 * ng
-                 m == MakeMap(lg, h, ns, nm, nt, ng, seed)
-             IN /\ Assert(Acceptable(m), "acceptable")
-                /\ Emit(<<"rt", lg, h, ns, nm, nt, ng>>, << RoundTrip(m, SavedWords[(seed % 4) + 1], <<seed % 256, 1, 2, 3>>, IF seed % 2 = 0 THEN <<>> ELSE <<9, 9, 9>>) >>)
-        /\ \A r \in 1..NRand : LET m == RMap(r) IN
-             /\ Assert(Acceptable(m), "random map is acceptable")
-             /\ Emit(<<"rand", Seed, r>>, << RoundTrip(m, IF m.saved THEN Pick(RS(r), 40, 0, << <<1,0,0,0>>, <<2,0,0,0>>, <<255,255,255,255>>, <<0,1,0,0>> >>) ELSE <<0,0,0,0>>,
-                                                    RBytes(r, 41, 0, 4), RBytes(r, 42, 0, Below(RS(r), 43, 0, 4))) >>)
-        /\ Emit(<<"rt10">>, << RoundTrip(MakeMap(10, 1, 1, 1, 0, 0, 4), <<1,0,0,0>>, <<0,0,0,0>>, <<>>) >>)
-        /\ \A n \in 1..(IF Tier = "thorough" THEN 3 ELSE 2) : \A ix \in Seqs(1..Len(EditPool), n) :
-             Emit(<<"ed", ix>>, << Edits(MakeMap(6, 2, 3, 2, 1, 1, 5), [i \in 1..n |-> EditPool[ix[i]]]) >>)
-        /\ \A pre \in {<<>>, << Cell(3, 1, 1) >>, << Lava(1, 33, 0) >>} : Emit(<<"trim", pre>>, << Edits(TrimMap, pre \o << TrimE, TrimE, Ver(4115) >>) >>)
-        /\ \A lg \in 5..10 : \A h \in ProbeHeights : Emit(<<"probe", lg, h>>, << Probe(lg, h) >>)
-        /\ \A ub \in { UnitBlock(0, 0, 0, 0, 0, 0), UnitBlock(3, 5, 5, 120, 1, 2), UnitBlock(3, 5, 6, 120, 0, 3), UnitBlock(0, 1, 2, 77, 2, 0) } :
-             Emit(<<"save", ub[1].v>>, << SaveCase(MakeMap(5, 2, 2, 2, 1, 0, 3), ub) >>)
-        \* a saved game wrapping a random map portion yields the same fields as the map file holding it
-        /\ \A r \in 1..(NRand \div 8) : LET m == [RMap(1000 + r) EXCEPT !.groups = <<>>] IN
-             Emit(<<"save-rand", Seed, r>>, << SaveCase(m, IF r % 2 = 0 THEN UnitBlock(3, 5, 5, 120, 1, 2) ELSE UnitBlock(0, 7, 6, 120, 0, 3)) >>)
-        /\ \A w \in {32, 64, 128} : \A h \in 1..4 : Assert(Bijective(w, h), "bijective")
-Spec == Init /\ [][Next]_done
+\* ---- one TLC state per case; the map laws are INVARIANTs over the state's logical map ----------------------------------------------------
+UnitBlocks == << UnitBlock(0, 0, 0, 0, 0, 0), UnitBlock(3, 5, 5, 120, 1, 2), UnitBlock(3, 5, 6, 120, 0, 3), UnitBlock(0, 1, 2, 77, 2, 0) >>
+Init == \/ fam = "rt" /\ par \in {<<lg, h, ns, nm, nt, ng>> : lg \in {0, 1, 2, 5}, h \in 0..2, ns \in 0..3, nm \in 0..2, nt \in 0..1, ng \in 0..2}
+        \/ fam = "rand" /\ par \in {<<r>> : r \in 1..NRand}
+        \/ fam = "rt10" /\ par = <<>>
+        \/ fam = "ed" /\ \E n \in 1..(IF Tier = "thorough" THEN 3 ELSE 2) : par \in Seqs(1..Len(EditPool), n)
+        \/ fam = "trim" /\ par \in {<<>>, << Cell(3, 1, 1) >>, << Lava(1, 33, 0) >>}
+        \/ fam = "probe" /\ par \in {<<lg, h>> : lg \in 5..10, h \in ProbeHeights}
+        \/ fam = "save" /\ par \in {<<k>> : k \in 1..Len(UnitBlocks)}
+        \/ fam = "save-rand" /\ par \in {<<r>> : r \in 1..(NRand \div 8)}
+Next == UNCHANGED vars
+Spec == Init /\ [][Next]_vars
+RtSeed == par[1] + 2 * par[2] + 3 * par[3] + 5 * par[4] + 7 * par[5] + 11 * par[6]
+Value == CASE fam = "rt" -> MakeMap(par[1], par[2], par[3], par[4], par[5], par[6], RtSeed)
+           [] fam = "rand" -> RMap(par[1])
+           [] fam = "rt10" -> MakeMap(10, 1, 1, 1, 0, 0, 4)
+           [] fam = "ed" -> MakeMap(6, 2, 3, 2, 1, 1, 5)
+           [] fam = "trim" -> TrimMap
+           [] fam = "save" -> MakeMap(5, 2, 2, 2, 1, 0, 3)
+           [] fam = "save-rand" -> [RMap(1000 + par[1]) EXCEPT !.groups = <<>>]
+           [] OTHER -> MakeMap(5, 1, 0, 0, 0, 0, 1)
+\* model-level laws
+ValueAcceptable == Acceptable(Value)
+TileCountIsProduct == Len(Value.tiles) = Value.h * Width(Value)
+EncodeLength == SegsLen(Encode(Value)) = SegsLen(EncodeWith(Value, <<0,0,0,0>>, <<0,0,0,0>>, <<>>))
+NormalFormIdempotent == Encode([Value EXCEPT !.saved = Value.saved]) = Encode(Value)
+TrimLaws == LET t == Trim(Value) IN Trim(t) = t /\ \A i \in 1..Len(t.sources) : ~IsEmptySource(t.sources[i])
+ProbeBijective == fam = "probe" /\ par[1] <= 7 /\ par[2] <= 8 => Bijective(Pow2(par[1]), par[2])
+Export ==
+  CASE fam = "rt" -> Emit(<<"rt", par>>, << RoundTrip(Value, SavedWords[(RtSeed % 4) + 1], <<RtSeed % 256, 1, 2, 3>>, IF RtSeed % 2 = 0 THEN <<>> ELSE <<9, 9, 9>>) >>)
+    [] fam = "rand" -> LET r == par[1] IN
+         Emit(<<"rand", Seed, r>>, << RoundTrip(Value, IF Value.saved THEN Pick(RS(r), 40, 0, << <<1,0,0,0>>, <<2,0,0,0>>, <<255,255,255,255>>, <<0,1,0,0>> >>) ELSE <<0,0,0,0>>,
+                                                RBytes(r, 41, 0, 4), RBytes(r, 42, 0, Below(RS(r), 43, 0, 4))) >>)
+    [] fam = "rt10" -> Emit(<<"rt10">>, << RoundTrip(Value, <<1,0,0,0>>, <<0,0,0,0>>, <<>>) >>)
+    [] fam = "ed" -> Emit(<<"ed", par>>, << Edits(Value, [i \in 1..Len(par) |-> EditPool[par[i]]]) >>)
+    [] fam = "trim" -> Emit(<<"trim", par>>, << Edits(Value, par \o << TrimE, TrimE, Ver(4115) >>) >>)
+    [] fam = "probe" -> Emit(<<"probe", par>>, << Probe(par[1], par[2]) >>)
+    [] fam = "save" -> Emit(<<"save", par>>, << SaveCase(Value, UnitBlocks[par[1]]) >>)
+    [] OTHER -> Emit(<<"save-rand", Seed, par>>, << SaveCase(Value, IF par[1] % 2 = 0 THEN UnitBlock(3, 5, 5, 120, 1, 2) ELSE UnitBlock(0, 7, 6, 120, 0, 3)) >>)
 ====
